@@ -60,6 +60,31 @@ def judge(case):
                     v("root-grad-dtype", f"root is {out.dtype}, its .grad is {rgr.dtype} (upstream gradient {np.dtype(gdt).name})")
                 if tuple(rgr.shape) != tuple(out.shape):
                     v("root-grad-shape", f"root shape {out.shape}, .grad shape {rgr.shape}")
+    # operands of DIFFERENT floating dtypes (a float64 input through float32 parameters, ...): whatever the result's dtype, every
+    # tensor's .grad keeps that tensor's own dtype and shape ("whatever the shapes and dtypes of the other operands")
+    if accepted and fam is ct or (accepted and case.get("form", "fn") == "fn"):
+        base = fam.arrays_for(case, dtype=np.float32)
+        fl = [i for i, a in enumerate(base) if a.dtype.kind == "f"]
+        if len(fl) >= 2:
+            for odd in (fl[0], fl[-1]):
+                arrays = [np.asarray(a, dtype=np.float64) if i == odd else a for i, a in enumerate(base)]
+                diff = cn.diff_idx(case, arrays) if fam is cn else list(range(len(arrays)))
+                rg = [i in diff for i in range(len(arrays))]
+                try:
+                    out, ts = fam.run_lib(case, arrays, rg)
+                    if not out.requires_grad or np.asarray(out.data).dtype.kind != "f": continue
+                    out.backward(sg.Tensor(np.asarray(values.dense_g(out.shape), dtype=out.dtype)))
+                except harness.HarnessError:
+                    raise
+                except Exception:
+                    continue        # mixed precision may be refused (torch refuses it for matmul-like ops)
+                for i in diff:
+                    gr = ts[i].grad
+                    if gr is None: continue
+                    if gr.dtype != ts[i].dtype:
+                        v("grad-dtype", f"mixed precision (operand {odd} float64, the others float32): operand {i} is {ts[i].dtype}, its .grad is {gr.dtype}")
+                    if tuple(gr.shape) != tuple(ts[i].shape):
+                        v("grad-shape", f"mixed precision: operand {i} has shape {ts[i].shape}, its .grad has shape {gr.shape}")
     if accepted and np.float32 in results:
         from mc import gradcheck
         arrays32 = fam.arrays_for(case, dtype=np.float32)
